@@ -34,7 +34,7 @@ package bitmap
 //@   modifies bits(a.bitmap), blen(a.bitmap), held(a.l)
 //@   ensures wf4(a) && !held(a.l)
 //@   ensures[C05:fails-iff-full] (err != nil) <==> (forall i uint in 0..blen(a.bitmap): old(bits(a.bitmap))[i])
-//@   ensures[C05:failure-changes-nothing] err != nil ==> (err == allocators.ErrNoAddrAvail && bits(a.bitmap) == old(bits(a.bitmap)))
+//@   ensures[C04,C05:failure-changes-nothing] err != nil ==> (err == allocators.ErrNoAddrAvail && bits(a.bitmap) == old(bits(a.bitmap)))
 //@   ensures[C04,C05:in-range-and-was-free] err == nil ==> (len(n.IP) == 4 && u32be(n.IP) >= a.start && u32be(n.IP) <= a.end && \
 //@       !old(bits(a.bitmap))[uint(u32be(n.IP) - a.start)] && \
 //@       bits(a.bitmap) == upd(old(bits(a.bitmap)), uint(u32be(n.IP) - a.start), true))
@@ -125,7 +125,7 @@ package bitmap
 //@   modifies bits(a.bitmap), blen(a.bitmap), held(a.l)
 //@   ensures wf6(a) && !held(a.l)
 //@   ensures[C05:fails-iff-full] (err != nil) <==> (forall i uint in 0..blen(a.bitmap): old(bits(a.bitmap))[i])
-//@   ensures[C05:failure-changes-nothing] err != nil ==> (err == allocators.ErrNoAddrAvail && bits(a.bitmap) == old(bits(a.bitmap)))
+//@   ensures[C04,C05:failure-changes-nothing] err != nil ==> (err == allocators.ErrNoAddrAvail && bits(a.bitmap) == old(bits(a.bitmap)))
 //@   ensures[C04,C05:in-pool-aligned-and-was-free] err == nil ==> (len(ret.IP) == 16 && inpool6(a, u128(ret.IP)) && alignedx(u128(ret.IP), a.page) && \
 //@       idx6(a, u128(ret.IP)) < blen(a.bitmap) && u128(ret.IP) == block6(a, idx6(a, u128(ret.IP))) && \
 //@       !old(bits(a.bitmap))[idx6(a, u128(ret.IP))] && \
